@@ -490,6 +490,18 @@ func (x *Exec) appendBuiltin(f *Frame, st *State, info *CallInfo) Val {
 			cur = b
 		case *NilPtr:
 			cur = ZeroOf(rt)
+		case *GoSlice:
+			// a slice literal ([]T{...}, possibly empty) as the base: the list of its elements
+			cur = ZeroOf(rt)
+			for _, e := range b.Elems {
+				et, ok := e.(*Term)
+				if !ok || et.Sort != rt.Fields[1].Sort.Elem {
+					cur = nil
+					break
+				}
+				ln := SelField(cur, 0)
+				cur = Con(rt, Add(ln, IntLit(1)), Store(SelField(cur, 1), ln, et))
+			}
 		}
 		if cur == nil {
 			x.errorf("append to %T", base)
